@@ -59,7 +59,7 @@ WHAT TO PRODUCE
 1. A change to the library source under {wt}/numba_scfg (not to its tests) that makes the property false for some inputs/histories. It must look like something a maintainer could plausibly commit (a refactoring, a "performance shortcut", a tidy-up, a bug fix of something else) - not sabotage, no dead giveaways, no special-casing of magic values, no randomness, no environment checks.
 2. The change must need something specific to manifest, not something ordinary use would expose at once. For this task the specific thing is {HINTS[hint]}. On everyday inputs (those of the test suite and the obvious smoke test) the library must behave exactly as before.
 3. A demonstration `demo.py` (stand-alone, only imports numba_scfg and the standard library, runs in well under a minute) that exits 0 when the property holds and exits non-zero (printing a short explanation) when it is violated. It must exit 0 on the unchanged library and non-zero with your change. The demonstration must check the PROPERTY as stated (observable behaviour through the public API), not the presence of your edit.
-4. Verify all of this yourself: run demo.py with your change (must fail), `git stash` (or `git diff > p; git checkout -- .`) and run it again (must pass), re-apply, and run the full test suite with the change (82 passed).
+4. Verify all of this yourself: run demo.py with your change (must fail), save and remove the change with `git diff > /tmp/<your id>.diff; git checkout -- numba_scfg` and run it again (must pass), re-apply it with `git apply /tmp/<your id>.diff` (NEVER use `git stash`: the stash is shared by all worktrees of the repository and other people work in theirs at the same time), and run the full test suite with the change (82 passed).
 
 Read the code first and pick a mechanism that really matters for this property. Prefer subtle semantic slips (wrong order, off-by-one, stale cache or memo, aliasing of a mutable, missed invalidation, a condition that is slightly too wide or too narrow, an update applied at one level of a nested structure but not another) to crashes.
 
